@@ -71,7 +71,8 @@ def stream_eval(chk, cases, per_case=8):
     lines, outs = [], []
     for e, ex, bits in cases:
         pre = G.to_prefix(e)
-        for n in chk.rng.sample(sample_ns(chk.rng, bits), k=min(per_case, len(sample_ns(chk.rng, bits)))):
+        ns = sample_ns(chk.rng, bits)
+        for n in chk.rng.sample(ns, k=min(per_case, len(ns))):
             lines.append(f'plural eval {bits} {n} {pre}')
             outs.append(impl_eval(ex, bits, n))
     return chk.stream('plural-eval', lines, outs)
